@@ -363,6 +363,10 @@ def check(run):
     from ..opt import check_forwarding
     check_forwarding(run, A, ('pb_bss.distribution.',), only=('covariance_norm', 'eigenvalue_floor', 'min_concentration', 'max_concentration', 'hermitize', 'covariance_type',
                                                              'fixed_covariance', 'affiliation_eps'))
+    # the affiliation that reaches the M-step after the inline alignment is the aligner's re-ordering of a posterior that sums to one over the classes - every value exactly once
+    # (shared with C14): a re-ordering that duplicates one class and drops another leaves the class axis un-normalised and with it the fitted weights
+    from . import c14 as _c14
+    _c14.check_inline_em_alignment(run, A)
     from ..opt import check_dropped_sanitisers
     run.floor('floors / clamps of the distribution, initializer and utility modules', check_dropped_sanitisers(run, A, ('pb_bss.distribution.', 'pb_bss.initializer.', 'pb_bss.utils')), 20)
     sel.check_principal(run, A, 'pb_bss.utils::get_pca')
